@@ -5,6 +5,7 @@ import (
 	"context"
 	"encoding/asn1"
 	"fmt"
+	"os"
 	"testing"
 	"time"
 
@@ -22,11 +23,16 @@ import (
 // schedules (DESIGN.md §3 C01).
 
 type c01Case struct {
-	IDs     []int `json:",omitempty"` // identifiers of the parties, ascending (nil = 1..N)
-	N, T    int
-	Silent  bool
-	Sched   sim.Schedule
-	Digests [][]byte
+	// LocalSigner: the signing sessions use the library's own bls.TBLS as signer, which signs locally without any
+	// further message (each participant obtains its partial signature); otherwise the harness's interactive signer
+	LocalSigner bool `json:",omitempty"`
+	// NoSwitch disables the generator switch of known finding L39 (only set by its probe case)
+	NoSwitch bool  `json:",omitempty"`
+	IDs      []int `json:",omitempty"` // identifiers of the parties, ascending (nil = 1..N)
+	N, T     int
+	Silent   bool
+	Sched    sim.Schedule
+	Digests  [][]byte
 	// orchestrated signing
 	Signers    []int // party ids, |Signers| in T..N
 	SignDigest []byte
@@ -77,6 +83,7 @@ func genC01(maxN int) func(t *rapid.T) c01Case {
 	return func(t *rapid.T) c01Case {
 		var c c01Case
 		c.N = rapid.IntRange(2, maxN).Draw(t, "n")
+		c.LocalSigner = rapid.IntRange(0, 2).Draw(t, "localSigner") == 0
 		if rapid.Bool().Draw(t, "otherIDs") {
 			// node and party identifiers coincide but are not 1..n (small values; large ones are C13's subject)
 			seen := map[int]bool{}
@@ -157,8 +164,17 @@ type c01Info struct {
 	Errors                          []string `json:",omitempty"`
 }
 
+// known finding L39: in loud mode a participant whose signer needs no further message (the library's own bls.TBLS) leaves
+// the second barrier, signs and removes the barrier's handler at once; the query of a slower participant is then dropped and
+// never repeated, so that participant's Sign waits until its context ends.
+const sigL39 = "C01/sign-completion/loud-mode-local-signer"
+
 func runC01(c c01Case) *vh.Outcome {
 	o := &vh.Outcome{}
+	if c.LocalSigner && !c.Silent && !c.NoSwitch && vh.KnownOpen(sigL39) && os.Getenv("VERIF_NO_SWITCH") == "" {
+		c.LocalSigner = false // generator switch: the interactive signer, with which every participant passes the barrier before anyone finishes
+		o.Classes = append(o.Classes, "excluded-by-known-finding-L39(interactive-signer-instead)")
+	}
 	all := c01IDs(c)
 	info := &c01Info{}
 	o.Info = info
@@ -185,6 +201,9 @@ func runC01(c c01Case) *vh.Outcome {
 			},
 			SF: func(node uint16) tss.SignerFactory {
 				return func(id uint16) tss.Signer {
+					if c.LocalSigner {
+						return &bls.TBLS{Logger: &sim.Logger{}, Party: id}
+					}
 					return &backends.ISigner{Party: id, AllParties: all, T: c.T, Logger: &sim.Logger{}}
 				}
 			},
@@ -262,7 +281,11 @@ func runC01(c c01Case) *vh.Outcome {
 				return
 			}
 			if call.Err != nil {
-				fail = vh.Failf("C01/sign-completion", "Sign of party %d failed in a fault-free run: %v (signers=%v silent=%v)", signers[i], call.Err, signers, c.Silent)
+				sig := "C01/sign-completion"
+				if c.LocalSigner && !c.Silent {
+					sig = sigL39
+				}
+				fail = vh.Failf(sig, "Sign of party %d failed in a fault-free run: %v (signers=%v silent=%v local signer=%v)", signers[i], call.Err, signers, c.Silent, c.LocalSigner)
 				return
 			}
 			sigs = append(sigs, call.Data)
@@ -395,6 +418,20 @@ func runC01(c c01Case) *vh.Outcome {
 	}
 
 	// (4) orchestrated signatures verify and agree
+	if c.LocalSigner {
+		// every participant obtained its own partial signature: it verifies under that party's published key
+		for i, s := range sigs {
+			pos := c.Signers[i] - 1
+			ppi, _ := asn1.Marshal(bls.PublicParams{Parties: params.Parties, PublicKeys: params.PublicKeys, ThresholdPK: params.PublicKeys[pos]})
+			var vi bls.Verifier
+			if err := vi.Init(ppi); err != nil || vi.Verify(c.SignDigest, s) != nil {
+				o.Fail = vh.Failf("C01/orchestrated-verify", "the partial signature that Sign returned on party %d does not verify for the requested digest under that party's published key", signers[i])
+				return o
+			}
+		}
+		o.Classes = append(o.Classes, "local-signer")
+		return o
+	}
 	for i, s := range sigs {
 		if err := v.Verify(c.SignDigest, s); err != nil {
 			o.Fail = vh.Failf("C01/orchestrated-verify", "signature returned by Sign on party %d does not verify for the requested digest %x (signers=%v n=%d t=%d)", signers[i], c.SignDigest, signers, c.N, c.T)
